@@ -100,7 +100,7 @@ func fieldBinding(p *core.Prog, e *core.Expr) string {
 }
 
 type gItem struct {
-	pos  token.Pos
+	pos  int // program order (see ord)
 	text string
 	loop *ssa.BasicBlock // innermost loop header of the call (nil if none)
 	cond string          // extra guard annotation
@@ -148,6 +148,9 @@ func builderTokens(p *core.Prog, fn *ssa.Function, b ssa.Value, skip func(c ssa.
 	}
 	var items []gItem
 	for _, blk := range fn.Blocks {
+		if gOnly != nil && gOnlyFn == fn && !gOnly[blk] {
+			continue
+		}
 		for _, in := range blk.Instrs {
 			c, ok := in.(*ssa.Call)
 			if !ok || len(c.Call.Args) == 0 {
@@ -166,7 +169,7 @@ func builderTokens(p *core.Prog, fn *ssa.Function, b ssa.Value, skip func(c ssa.
 			if skip != nil && skip(c) {
 				continue
 			}
-			it := gItem{pos: c.Pos(), loop: innermostLoop(fn, blk)}
+			it := gItem{pos: ord(c), loop: innermostLoop(fn, blk)}
 			m := reAdd.FindStringSubmatch(x.Name)
 			switch {
 			case m != nil && m[1] == "Bytes":
@@ -182,7 +185,21 @@ func builderTokens(p *core.Prog, fn *ssa.Function, b ssa.Value, skip func(c ssa.
 				lit := p.ResolveFuncValue(c.Call.Args[1])
 				inner := []string{"?"}
 				if lit != nil && len(lit.Params) == 1 {
-					inner = builderTokens(p, lit, lit.Params[0], skip, depth+1)
+					fv := c.Call.Args[1]
+					for {
+						ct, ok := fv.(*ssa.ChangeType)
+						if !ok {
+							break
+						}
+						fv = ct.X
+					}
+					if mc, ok := fv.(*ssa.MakeClosure); ok {
+						// this creation site's bindings (a literal inside an inlined
+						// helper is created once per inlined copy)
+						p.WithCreator(mc, func() { inner = builderTokens(p, lit, lit.Params[0], skip, depth+1) })
+					} else {
+						inner = builderTokens(p, lit, lit.Params[0], skip, depth+1)
+					}
 				}
 				it.text = "p" + m[2] + "{ " + strings.Join(inner, " ") + " }"
 			case m != nil:
@@ -279,7 +296,7 @@ func parserTokens(p *core.Prog, fn *ssa.Function, root ssa.Value) []string {
 			reads = append(reads, r)
 		}
 	}
-	sort.SliceStable(reads, func(i, j int) bool { return reads[i].call.Pos() < reads[j].call.Pos() })
+	sort.SliceStable(reads, func(i, j int) bool { return ord(reads[i].call) < ord(reads[j].call) })
 	// a cursor variable re-pointed to a child block (s = ss): later reads on it
 	// are reads on that child
 	for _, blk := range fn.Blocks {
@@ -297,29 +314,29 @@ func parserTokens(p *core.Prog, fn *ssa.Function, root ssa.Value) []string {
 				continue
 			}
 			for i := range reads {
-				if reads[i].cursor == ssa.Value(dst) && reads[i].call.Pos() > st.Pos() {
+				if reads[i].cursor == ssa.Value(dst) && ord(reads[i].call) > ord(st) {
 					reads[i].cursor = src
 				}
 			}
 			for i := range helpers {
-				if helpers[i].cursor == ssa.Value(dst) && helpers[i].call.Pos() > st.Pos() {
+				if helpers[i].cursor == ssa.Value(dst) && ord(helpers[i].call) > ord(st) {
 					helpers[i].cursor = src
 				}
 			}
 		}
 	}
 	// epochs: a prefixed read into cursor C at position P opens a child list for C
-	var render func(cur ssa.Value, from, to token.Pos, depth int) []string
-	render = func(cur ssa.Value, from, to token.Pos, depth int) []string {
+	var render func(cur ssa.Value, from, to int, depth int) []string
+	render = func(cur ssa.Value, from, to int, depth int) []string {
 		if depth > 8 {
 			return []string{"…"}
 		}
 		var items []gItem
 		for i, r := range reads {
-			if r.cursor != cur || r.call.Pos() <= from || (to.IsValid() && r.call.Pos() >= to) {
+			if r.cursor != cur || ord(r.call) <= from || (to >= 0 && ord(r.call) >= to) {
 				continue
 			}
-			it := gItem{pos: r.call.Pos(), loop: innermostLoop(fn, r.call.Block())}
+			it := gItem{pos: ord(r.call), loop: innermostLoop(fn, r.call.Block())}
 			switch {
 			case r.name == "Skip":
 				it.text = "skip(" + r.n + ")"
@@ -328,14 +345,14 @@ func parserTokens(p *core.Prog, fn *ssa.Function, root ssa.Value) []string {
 			case r.pref:
 				child := cursorOf(p, r.target)
 				// the child's epoch ends at the next prefixed read into the same cell
-				end := token.NoPos
+				end := -1
 				for _, r2 := range reads[i+1:] {
 					if r2.pref && cursorOf(p, r2.target) == child {
-						end = r2.call.Pos()
+						end = ord(r2.call)
 						break
 					}
 				}
-				inner := render(child, r.call.Pos(), end, depth+1)
+				inner := render(child, ord(r.call), end, depth+1)
 				if len(inner) == 0 {
 					// the block as a whole goes somewhere
 					inner = []string{"bytes:" + sinkBinding(p, fn, r.call, r.target)}
@@ -347,15 +364,15 @@ func parserTokens(p *core.Prog, fn *ssa.Function, root ssa.Value) []string {
 			items = append(items, it)
 		}
 		for _, h := range helpers {
-			if h.cursor != cur || h.call.Pos() <= from || (to.IsValid() && h.call.Pos() >= to) {
+			if h.cursor != cur || ord(h.call) <= from || (to >= 0 && ord(h.call) >= to) {
 				continue
 			}
 			x := p.X(h.call)
-			items = append(items, gItem{pos: h.call.Pos(), loop: innermostLoop(fn, h.call.Block()), text: "call:" + lastDot(x.Name) + "(" + resultSink(p, fn, h.call) + ")"})
+			items = append(items, gItem{pos: ord(h.call), loop: innermostLoop(fn, h.call.Block()), text: "call:" + lastDot(x.Name) + "(" + resultSink(p, fn, h.call) + ")"})
 		}
 		return renderItems(items)
 	}
-	return render(root, token.NoPos, token.NoPos, 0)
+	return render(root, -1, -1, 0)
 }
 
 func isCursorType(t types.Type) bool {
@@ -567,4 +584,121 @@ func isNilExpr(e *core.Expr) bool {
 		e = e.Args[0]
 	}
 	return e.Op == "const" && (e.Name == "nil" || e.Name == "zero")
+}
+
+// ord gives the instructions of one function a total order that follows the
+// source order of structured code: blocks in reverse post-order of a depth
+// first walk that takes the last successor first (so a loop body and a then-
+// branch come before what follows them), instructions by their index. Source
+// positions are not used: after flattening, inlined instructions keep the
+// positions of the helper they came from.
+func ord(in ssa.Instruction) int {
+	b := in.Block()
+	if b == nil {
+		return -1
+	}
+	fn := b.Parent()
+	rpo, ok := ordCache[fn]
+	if !ok || len(rpo) != len(fn.Blocks) {
+		rpo = make(map[*ssa.BasicBlock]int, len(fn.Blocks))
+		var post []*ssa.BasicBlock
+		seen := map[*ssa.BasicBlock]bool{}
+		var visit func(x *ssa.BasicBlock)
+		visit = func(x *ssa.BasicBlock) {
+			seen[x] = true
+			for i := len(x.Succs) - 1; i >= 0; i-- {
+				if !seen[x.Succs[i]] {
+					visit(x.Succs[i])
+				}
+			}
+			post = append(post, x)
+		}
+		if len(fn.Blocks) > 0 {
+			visit(fn.Blocks[0])
+		}
+		if fn.Recover != nil && !seen[fn.Recover] {
+			visit(fn.Recover)
+		}
+		for i, x := range post {
+			rpo[x] = len(post) - 1 - i
+		}
+		ordCache[fn] = rpo
+	}
+	for i, x := range b.Instrs {
+		if x == in {
+			return rpo[b]*100000 + i
+		}
+	}
+	return rpo[b]*100000 + 99999
+}
+
+var ordCache = map[*ssa.Function]map[*ssa.BasicBlock]int{}
+
+// gOnly restricts builderTokens, for function gOnlyFn, to the blocks of one
+// path (see builderPathTokens).
+var (
+	gOnly   map[*ssa.BasicBlock]bool
+	gOnlyFn *ssa.Function
+)
+
+// builderPathTokens renders what fn writes to builder b separately for every
+// way through fn from entry to a return, where a loop counts as entered or
+// skipped (back edges are not followed). The result is the sorted set of
+// distinct token strings. Two shapes of the same code - an if around a block,
+// or an early return before it - give the same set. It gives up (nil) beyond
+// maxPaths paths.
+func builderPathTokens(p *core.Prog, fn *ssa.Function, b ssa.Value, maxPaths int) []string {
+	var paths [][]*ssa.BasicBlock
+	var cur []*ssa.BasicBlock
+	visits := map[*ssa.BasicBlock]int{}
+	over := false
+	var walk func(x *ssa.BasicBlock)
+	walk = func(x *ssa.BasicBlock) {
+		if over {
+			return
+		}
+		cur = append(cur, x)
+		visits[x]++
+		defer func() { cur = cur[:len(cur)-1]; visits[x]-- }()
+		if len(x.Succs) == 0 {
+			if _, ok := x.Instrs[len(x.Instrs)-1].(*ssa.Return); ok {
+				paths = append(paths, append([]*ssa.BasicBlock(nil), cur...))
+				if len(paths) > maxPaths {
+					over = true
+				}
+			}
+			return
+		}
+		for _, s := range x.Succs {
+			switch {
+			case visits[s] == 0:
+				walk(s)
+			case visits[s] == 1 && visits[x] == 1:
+				// a back edge: return to the loop header once, to leave the loop
+				walk(s)
+			}
+		}
+	}
+	if len(fn.Blocks) == 0 {
+		return nil
+	}
+	walk(fn.Blocks[0])
+	if over {
+		return nil
+	}
+	set := map[string]bool{}
+	defer func() { gOnly, gOnlyFn = nil, nil }()
+	for _, path := range paths {
+		gOnly, gOnlyFn = map[*ssa.BasicBlock]bool{}, fn
+		for _, x := range path {
+			gOnly[x] = true
+		}
+		set[normTokens(builderTokens(p, fn, b, nil, 0))] = true
+	}
+	var out []string
+	for k := range set {
+		out = append(out, k)
+	}
+	sort.Strings(out)
+	return out
 }
